@@ -274,12 +274,13 @@ func ruleJSONLEAFCLASS(c *Ctx, r *Report) {
 		return
 	}
 	wildGuard := func(f *ssa.Function) (string, string) {
-		paths, _ := c.enumPaths(f, 2000)
+		paths, _ := c.enumPathsInl(f, 5000)
 		for _, p := range paths {
 			if p.Ret == nil {
 				continue
 			}
-			call, ok := c.resolve(p.Ret.Results[0], p.Env).(*ssa.Call)
+			rv, re := c.resolveE(p.Ret.Results[0], p.Env)
+			call, ok := rv.(*ssa.Call)
 			if !ok || call.Call.StaticCallee() == nil {
 				continue
 			}
@@ -287,7 +288,7 @@ func ruleJSONLEAFCLASS(c *Ctx, r *Report) {
 			if len(ops) != 1 || ops[0] != "expr.Wild" {
 				continue
 			}
-			arg := c.key(call.Call.Args[0], p.Env)
+			arg := c.key(call.Call.Args[0], re)
 			// the last positive atom on the text
 			for i := len(p.Atoms) - 1; i >= 0; i-- {
 				a := p.Atoms[i]
@@ -998,4 +999,61 @@ func ruleRECONCE(c *Ctx, r *Report) {
 		}
 	}
 	r.floor(rule, "self-recursive functions", n, 2)
+}
+
+// PARSE-INPUT (C05/C06/C08/C09/C16): the query text reaches the lexer untouched and nothing but the
+// lexer and the shift/reduce machinery decides about it.
+func rulePARSEINPUT(c *Ctx, r *Report) {
+	const rule = "PARSE-INPUT"
+	r.doc(rule, "in Parse the lexer is constructed on the input parameter itself (no trimming, rewriting or re-slicing before lexing) and no branch of Parse depends on the input text (no acceptance or rejection outside the lexer and the shift/reduce loop); ToPostgres and ToParameterizedPostgres hand their input to Parse unchanged")
+	pr := c.parserRoles()
+	lr := c.lexRoles()
+	if pr.Err != "" || lr.Err != "" || pr.Parse == nil {
+		r.bad(rule, "anchor", "-", "Parse / lexer constructor not resolved")
+		return
+	}
+	fn := pr.Parse
+	n := 0
+	for _, b := range fn.Blocks {
+		for _, in := range b.Instrs {
+			if call, ok := in.(*ssa.Call); ok && call.Call.StaticCallee() == lr.LexCtor && len(call.Call.Args) >= 1 {
+				n++
+				k := c.key(call.Call.Args[0], nil)
+				if k == "$0" {
+					r.ok(rule, "lexer-input", c.instrPos(in), "lex.Lex(input)")
+				} else {
+					r.bad(rule, "lexer-input", c.instrPos(in), "the lexer is constructed on "+k+" instead of the query text itself: characters are removed or changed before tokenisation (escaped or quoted text at the edges is not delivered verbatim, and the tokens no longer tile the input)")
+				}
+			}
+		}
+		if iff, ok := b.Instrs[len(b.Instrs)-1].(*ssa.If); ok {
+			for _, a := range c.atoms(iff.Cond, true, nil) {
+				mentions := func(s string) bool {
+					return s == "$0" || strings.HasPrefix(s, "$0[") || strings.Contains(s, "($0") || strings.Contains(s, ",$0") || strings.HasPrefix(s, "len($0")
+				}
+				if mentions(a.Subj) || mentions(a.Val) {
+					r.bad(rule, "input-test|"+a.String(), c.instrPos(iff), "Parse branches on the query text itself ("+a.String()+"): a pre-check outside the lexer decides which queries are accepted, and it does not know about quoting and escaping")
+				}
+			}
+		}
+	}
+	r.floor(rule, "lexer constructions in Parse", n, 1)
+	for _, name := range []string{"ToPostgres", "ToParameterizedPostgres"} {
+		f := c.pkgFunc(pkgRoot, name)
+		if f == nil {
+			continue
+		}
+		for _, b := range f.Blocks {
+			for _, in := range b.Instrs {
+				if call, ok := in.(*ssa.Call); ok && call.Call.StaticCallee() == fn && len(call.Call.Args) >= 1 {
+					k := c.key(call.Call.Args[0], nil)
+					if k == "$0" {
+						r.ok(rule, name+"|parse-input", c.instrPos(in), "Parse(input, …)")
+					} else {
+						r.bad(rule, name+"|parse-input", c.instrPos(in), name+" parses "+k+" instead of its input")
+					}
+				}
+			}
+		}
+	}
 }
